@@ -42,6 +42,9 @@ structure Scan where
   smallest : Nat := 2 ^ 32 - 1     -- u32::MAX
   done : Option Nat := none        -- early return value (in µV)
 
+/-- the µV value the scan settles on -/
+def Scan.result (s : Scan) : Nat := match s.done with | some r => r | none => s.nearest
+
 /-- one candidate of the scan -/
 def scanStep (vin : Nat) (s : Scan) (cand : Nat) : Scan :=
   match s.done with
@@ -66,8 +69,7 @@ def findNearestUv (allowed : Nat) (vin : Nat) : Nat :=
   let o := vin / Gen.oneOctaveUv
   let cands := (octavesToSearch o).flatMap (octaveCands allowed)
   let s := cands.foldl (scanStep vin) {}
-  let uv := match s.done with | some r => r | none => s.nearest
-  (uv / Gen.halfStepUv) % 256      -- `as u8`
+  (s.result / Gen.halfStepUv) % 256      -- `as u8`
 
 def toMicrovolts (v : F32) : Nat := toU32 (mul v (ofNat Gen.oneOctaveUv))
 
